@@ -266,6 +266,18 @@ class Interp(object):
                                 if self.sigma[d] == NONE:
                                     self.sigma[d] = GIVEN
             return NS()
+        if nm == "next" and e.args and isinstance(e.args[0], ast.Call) and isinstance(e.args[0].func, ast.Name) and e.args[0].func.id == "filter" \
+                and len(e.args[0].args) == 2 and isinstance(e.args[0].args[0], ast.Lambda) and len(e.args[0].args[0].args.args) == 1:
+            # next(filter(lambda x: x == K, it)): the only element that can come out is K
+            lam, it = e.args[0].args
+            self.ev(it, env, fn, depth)
+            body, pn = lam.body, lam.args.args[0].arg
+            if isinstance(body, ast.Compare) and len(body.ops) == 1 and isinstance(body.ops[0], ast.Eq):
+                other = [x for x in (body.left, body.comparators[0]) if not (isinstance(x, ast.Name) and x.id == pn)]
+                if len(other) == 1 and not any(isinstance(x, ast.Name) and x.id == pn for x in ast.walk(other[0])):
+                    v = self.fold(other[0], env)
+                    if v is not UNKNOWN and isinstance(v, (str, int)):
+                        return ("const", v)
         if nm in ("len", "list", "tuple", "sorted", "iter", "next", "sum", "min", "max", "enumerate", "zip", "map", "filter", "any", "all", "deque", "OrderedDict", "dict", "set", "frozenset", "reversed"):
             vals = [self.ev(a, env, fn, depth) for a in e.args]
             for a, v in zip(e.args, vals):
